@@ -255,7 +255,8 @@ impl NetWorld {
                 let mut buf = [0u8; 2048];
                 catch(|| {
                     let mut w: Vec<n6::Warning<u8>> = Vec::new();
-                    let (pkt, _) = net.feed(cb, &mut w, addr, &bytes, &mut buf[..]);
+                    let (pkt, fres) = net.feed(cb, &mut w, addr, &bytes, &mut buf[..]);
+                    let cb_ok = fres.is_ok();
                     let evs: Vec<Value> = pkt
                         .map(|ev| match ev {
                             n6::ChunkOrEvent::Chunk(c) => json!({"e": "chunk", "id": id_of(1, c.data), "sz": c.data.len(), "v": c.vital, "pid": c.pid.0}),
@@ -268,12 +269,12 @@ impl NetWorld {
                             n6::ChunkOrEvent::Disconnect(p, r) => json!({"e": "disc", "r": if r == &reason(r.len())[..] { r.len() as i64 } else { -2 }, "pid": p.0}),
                         })
                         .collect();
-                    ("ok".to_string(), evs, None)
+                    ((if cb_ok { "ok" } else { "callback" }).to_string(), evs, None)
                 })
             }
             "accept" => catch(|| {
-                let _ = net.accept(cb, pid());
-                ("ok".to_string(), vec![], None)
+                let r = net.accept(cb, pid());
+                ((if r.is_ok() { "ok" } else { "callback" }).to_string(), vec![], None)
             }),
             "reject" => {
                 let rs = reason(act["r"].as_u64().unwrap_or(0) as usize);
